@@ -118,12 +118,16 @@ def ast_hash(relpath, qualname=None):
 
 class Check:
     def __init__(self, prop, pkg, props, driver=None, lemma_files=(), model_files=(),
-                 extra_targets=(), trusted=(), assumptions=(), tier=None, seed=None):
+                 extra_targets=(), trusted=(), assumptions=(), tier=None, seed=None, more_props=()):
         self.prop = prop
         self.pkg = pkg
         self.pkgdir = os.path.join(ROOT, "lean", pkg)
         self.props = props                      # e.g. "Proofs.Props.C03"
         self.props_file = os.path.join(self.pkgdir, props.replace(".", "/") + ".lean")
+        # further modules of PROPERTY theorems (same status as `props`)
+        self.more_props = list(more_props)
+        self.props_files = [self.props_file] + [os.path.join(self.pkgdir, m.replace(".", "/") + ".lean")
+                                                for m in self.more_props]
         self.driver_name = driver
         self.lemma_files = [os.path.join(self.pkgdir, f) for f in lemma_files]
         self.model_files = [os.path.join(self.pkgdir, f) for f in model_files]
@@ -229,11 +233,11 @@ class Check:
     def build(self, clean=False):
         """lake build of the property's theorems (+ driver) and the axiom audit.
         Sets build_ok, broken_obligations, obligations, discharged."""
-        targets = [self.props] + self.extra_targets + ([self.driver_name] if self.driver_name else [])
+        targets = [self.props] + self.more_props + self.extra_targets + ([self.driver_name] if self.driver_name else [])
         if clean or (self.tier == "thorough" and os.environ.get("VERIF_NO_CLEAN") is None):
             # rebuild the property's own modules from scratch (not Mathlib)
             lib = os.path.join(self.pkgdir, ".lake", "build", "lib", "lean")
-            for f in [self.props_file] + self.lemma_files:
+            for f in self.props_files + self.lemma_files:
                 rel = os.path.relpath(f, self.pkgdir)[:-5]
                 for ext in (".olean", ".ilean", ".trace", ".olean.hash", ".ilean.hash"):
                     try:
@@ -242,7 +246,12 @@ class Check:
                         pass
         rc, log = self._lake(["build"] + targets)
         self.build_log = log
-        names = lean_theorems(self.props_file) if os.path.exists(self.props_file) else []
+        names = []
+        for f in self.props_files:
+            if os.path.exists(f):
+                names += lean_theorems(f)
+            else:
+                self.broken_obligations.append(f"property theorem file missing: {os.path.relpath(f, self.pkgdir)}")
         lemma_names = []
         for f in self.lemma_files:
             if os.path.exists(f):
@@ -252,7 +261,7 @@ class Check:
         self.n_property_theorems = len(names)
         self.checker_cmd = (f"cd lean/{self.pkg} && lake build {' '.join(targets)} && lake env lean .lake/audit_{self.prop}.lean"
                             f"   # the audit file (written by the check) asserts the axioms of {len(names)} property theorems + {len(lemma_names)} helper lemmas")
-        tok = forbidden_tokens([self.props_file] + self.lemma_files + self.model_files)
+        tok = forbidden_tokens(self.props_files + self.lemma_files + self.model_files)
         if tok:
             self.broken_obligations.append("forbidden construct: " + "; ".join(tok[:5]))
         if rc != 0:
@@ -266,7 +275,7 @@ class Check:
                 self.broken_obligations.append("no property theorems found")
             return False
         # audit run (re-derives the axioms of every theorem from the compiled modules)
-        mods = [self.props] + [os.path.relpath(f, self.pkgdir)[:-5].replace("/", ".") for f in self.lemma_files]
+        mods = [self.props] + self.more_props + [os.path.relpath(f, self.pkgdir)[:-5].replace("/", ".") for f in self.lemma_files]
         audit_src = "".join(f"import {m}\n" for m in dict.fromkeys(mods + ["Proofs.Audit"]))
         allnames = names + lemma_names
         for i in range(0, len(allnames), 40):
